@@ -105,13 +105,13 @@ def run_engine_parallel(ctx, K):
         run_par_stream(ctx, K, b0, profile, 4, tier_n(ctx, 150, 3000), "par4_" + profile, False, claim=ctx.pid, include=inc, online=True)
 
 
-def run_kindtrace(ctx, K, structural=False):
+def run_kindtrace(ctx, K, structural=False, faults=False):
     """differential tester for the node kinds outside the generated alphabet (Map3..8, MapIf, BindIf, Bind3/4, Cutoff2, Freeze,
     Func, Watch, Timer, clock kinds inside programs, folds, incrutil helpers, slicei): implementation only.
     structural: only CheckInvariants / membership / drain / panics / spurious errors count (C05, C06, C10)."""
     b = K.go_build(ctx, "kindtrace")
     if b:
-        K.run_tool(ctx, b, ["-n", str(tier_n(ctx, 150, 3000)), "-seed", str(ctx.seed), "-claim", ctx.pid] + (["-structural"] if structural else []), "kinds")
+        K.run_tool(ctx, b, ["-n", str(tier_n(ctx, 150, 3000)), "-seed", str(ctx.seed), "-claim", ctx.pid] + (["-structural"] if structural else []) + (["-faults"] if faults else []), "kinds-faults" if faults else "kinds")
 
 
 def run_sentinel(ctx, K):
@@ -155,6 +155,10 @@ def run_engine(ctx, K):
         # replacing Var by VarEqual changes no observer value: the handler scenario runs half of its graphs with an
         # equality var (written mid-pass and written back to the held value by an update handler) against plain-Var expectations
         run_parscen(ctx, K, only="writes-from-update-handlers")
+    if ctx.pid == "C07":
+        # every remaining node kind interrupted by a failing or panicking user function and retried: a twin world of the same
+        # program takes the pass with the fault and retries it; afterwards it must equal the fault-free world
+        run_kindtrace(ctx, K, faults=True)
     if ctx.pid == "C13":
         run_parscen(ctx, K, only="unobserve-from-a-node-function")  # a handler filed in the pass is withdrawn when its observer is released mid-pass
     if ctx.pid in ("C03", "C05"):
